@@ -6,7 +6,7 @@ Harness registry = tag comments inside /verif/kani/*.rs:
     // @group <group>|-                                    (harnesses below belong to that macro group / to no group)
     // @props C01 C02 [tier=quick|thorough] [spin=violation]   (directly above a harness' #[kani::proof...])
 """
-import os, re, fcntl, time
+import os, re, fcntl, time, json, hashlib
 from .common import *
 
 KANI_DIR = os.path.join(VERIF, "kani")
@@ -121,9 +121,120 @@ class _Lock:
         self.f.close()
 
 
-def run_batch(harnesses, jobs=None, extra=None, timeout=None):
+PER_HARNESS_TIMEOUT_S = int(os.environ.get("VERIF_KANI_HARNESS_TIMEOUT", "900"))
+CHUNK = 48
+
+
+_hash_memo = {}
+
+
+def _repo_hash():
+    """hash of /repo's working-tree sources + manifest + lock + flags"""
+    if "repo" in _hash_memo:
+        return _hash_memo["repo"]
+    h = hashlib.sha1()
+    files = []
+    for d, _, fs in os.walk(os.path.join(REPO, "src")):
+        for f in fs:
+            if f.endswith(".rs"):
+                files.append(os.path.join(d, f))
+    files += [os.path.join(REPO, "Cargo.toml"), os.path.join(REPO, "Cargo.lock")]
+    for f in sorted(files):
+        if os.path.exists(f):
+            h.update(f.encode()); h.update(b"\0")
+            with open(f, "rb") as fh:
+                h.update(fh.read())
+    h.update(" ".join(KANI_FLAGS + CBMC_FLAGS).encode())
+    _hash_memo["repo"] = h.hexdigest()
+    return _hash_memo["repo"]
+
+
+def _kani_deps():
+    """harness file -> set of harness files it (transitively) uses through `crate::<module>::verif_hooks`"""
+    if "deps" in _hash_memo:
+        return _hash_memo["deps"]
+    texts, mod2file = {}, {}
+    for name in os.listdir(KANI_DIR):
+        if name.endswith(".rs"):
+            t = read(os.path.join(KANI_DIR, name)); texts[name[:-3]] = t
+            m = re.search(r"^//\s*@module\s+(\S+)", t, re.M)
+            if m:
+                mod2file[m.group(1)] = name[:-3]
+    direct = {}
+    for f, t in texts.items():
+        direct[f] = set()
+        for m in re.finditer(r"crate::([\w:]+?)::(?:\{[^}]*\bverif_hooks\b|verif_hooks\b)", t):
+            g = mod2file.get(m.group(1))
+            if g:
+                direct[f].add(g)
+    deps = {}
+    for f in texts:
+        seen, todo = {f}, [f]
+        while todo:
+            x = todo.pop()
+            for y in direct.get(x, ()):
+                if y not in seen:
+                    seen.add(y); todo.append(y)
+        deps[f] = seen
+    _hash_memo["deps"] = (deps, texts)
+    return _hash_memo["deps"]
+
+
+def source_hash(file=None):
+    """hash of everything a Kani verdict of a harness in /verif/kani/<file>.rs depends on: /repo's working-tree sources + manifest +
+    lock, the flags, and the texts of that harness file and of every harness file it uses (transitively)"""
+    deps, texts = _kani_deps()
+    h = hashlib.sha1(_repo_hash().encode())
+    for f in sorted(deps.get(file, texts.keys()) if file else texts.keys()):
+        h.update(f.encode()); h.update(texts[f].encode())
+    return h.hexdigest()
+
+
+def _cache_path():
+    return os.path.join(CACHE, f"kani-results-{repo_tag()}.json")
+
+
+def _cache_all():
+    try:
+        return json.loads(read(_cache_path()))
+    except Exception:
+        return {}
+
+
+def _cache_store(results):
+    cur = _cache_all()
+    for k, r in results.items():
+        if r["status"] in ("success", "failed"):
+            e = {x: r[x] for x in ("status", "checks", "failed", "unreachable", "covers", "time_s", "failed_checks", "raw") if x in r}
+            e["key"] = source_hash(r["harness"].file)
+            cur[k] = e
+    write(_cache_path(), json.dumps(cur))
+
+
+def run_batch(harnesses, jobs=None, extra=None, timeout=None, use_cache=True):
     """`cargo kani` over the real crate, one invocation per parallelism class (memory-hungry harness files declare `// @jobs n`);
-    returns (results: full-name -> dict, raw output, cmd, wall)"""
+    returns (results: full-name -> dict, raw output, cmd, wall). Verdicts are memoised per source hash (see source_hash): a harness is
+    re-verified whenever anything under /repo/src, Cargo.toml, Cargo.lock or /verif/kani changes; several properties share harnesses."""
+    if use_cache and not extra and jobs is None:
+        allc = _cache_all()
+        cached = {h.full: allc[h.full] for h in harnesses if h.full in allc and allc[h.full].get("key") == source_hash(h.file)}
+        key = _repo_hash()
+        todo = [h for h in harnesses if h.full not in cached]
+        res, raws, cmds, wall = {}, [], [], 0.0
+        for h in harnesses:
+            if h.full in cached:
+                r = dict(cached[h.full]); r["covers"] = tuple(r.get("covers", (0, 0))); r["harness"] = h; r["cached"] = True
+                res[h.full] = r
+        # chunked so that verdicts reached so far survive an interruption
+        for j in sorted({h.jobs for h in todo}, reverse=True):
+            part = [h for h in todo if h.jobs == j]
+            for k in range(0, len(part), CHUNK):
+                r, raw, cmd, w = run_batch(part[k:k + CHUNK], jobs=j, timeout=timeout, use_cache=False)
+                res.update(r); raws.append(raw); cmds.append(cmd); wall += w
+                _cache_store(r)
+        if not cmds:
+            cmds = [f"(all {len(harnesses)} verdicts memoised for source hash {key[:12]})"]
+        return res, "\n".join(raws), " ; ".join(cmds), wall
     if jobs is None:
         classes = sorted({h.jobs for h in harnesses}, reverse=True)
         if len(classes) > 1:
@@ -133,13 +244,14 @@ def run_batch(harnesses, jobs=None, extra=None, timeout=None):
                 res.update(r); raws.append(raw); cmds.append(cmd); wall += w
             return res, "\n".join(raws), " ; ".join(cmds), wall
         jobs = classes[0] if classes else 16
-    cmd = ["cargo", "kani"] + KANI_FLAGS + ["-j", str(jobs), "--output-format", "terse", "--exact"]
+    cmd = ["cargo", "kani"] + KANI_FLAGS + ["-Z", "unstable-options", "--harness-timeout", f"{PER_HARNESS_TIMEOUT_S}s",
+                                            "-j", str(jobs), "--output-format", "terse", "--exact"]
     for h in harnesses:
         cmd += ["--harness", h.full]
     if extra:
         cmd += extra
     if timeout is None:
-        timeout = 300 + HARNESS_TIMEOUT_S * (1 + len(harnesses) // max(1, jobs))
+        timeout = 600 + PER_HARNESS_TIMEOUT_S * (1 + len(harnesses) // max(1, jobs))
     with _Lock():
         rc, out, wall = sh(cmd, cwd=REPO, env=_kani_env(), timeout=timeout)
     return parse_terse(out, harnesses, rc), out, " ".join(cmd), wall
